@@ -37,6 +37,9 @@ func TestWorker(t *testing.T) {
 			syncutil.SimHook = kernel.HookSite
 			syncutil.SimPoolGet = kernel.PoolGet
 			syncutil.SimPoolPut = kernel.PoolPut
+			if overlayHooks != nil {
+				overlayHooks()
+			}
 		},
 		Run: run,
 	})
@@ -820,3 +823,7 @@ func checkOutput(rc *kernel.RunCtx, out []byte, done []handled) {
 		}
 	}
 }
+
+// overlayHooks is set by autoyield_test.go when the check is built with the
+// statement-level yield overlay.
+var overlayHooks func()
